@@ -228,6 +228,7 @@ class Skeleton:
     prologue: List[str] = field(default_factory=list)        # statements before StreamController::new that touch `s`
     body_group: Optional[Tok] = None
     fn_helpers: set = field(default_factory=set)
+    mut_on_read: set = field(default_factory=set)
     unknown_toks: list = field(default_factory=list)
 
     def canon(self, name):
@@ -259,6 +260,8 @@ def _cell_init(stmt, src):
         return None
     inner = g.kids[k - 1]
     init = src[inner.start + 1:inner.end - 1].strip()
+    if init.endswith(','):
+        init = init[:-1].rstrip()   # rustfmt's trailing comma
     return name, init
 
 
@@ -509,7 +512,7 @@ def rewrite_body(cl: Closure, sk: Skeleton, src: str, op: str, captures: Dict[st
                         i = j
                         continue
                     if k > 0:
-                        reps.append((t.start, ts[k - 1].end, '(&*%s)' % canon))
+                        reps.append((t.start, ts[k - 1].end, ('(&mut *%s)' if canon in sk.mut_on_read else '(&*%s)') % canon))
                         if canon not in cells_used:
                             cells_used.append(canon)
                         i = k
